@@ -7,6 +7,8 @@ settings channel with the firmware's integer division, arithmetic little-endian 
 LogTocElement.types."""
 import struct
 
+from crosshair.tracers import NoTracing
+
 from vf.harness import Harness
 from vf.env import c05_env as E
 from vf.env.c05_env import (LogCF, connect, disconnect, packet, toc_element, assume_distinct, fw_block_messages, FW_TYPES,
@@ -28,8 +30,8 @@ STUBS = ['LogCF (MiniCF + disconnected Caller + the real Log); send_packet is th
          'cflib.crazyflie.log.TocFetcher replaced by a stub that installs the table at once (the download is property C03); '
          'the reset handshake around it (refresh_toc, reset ack, log_blocks cleared) is the real code',
          'packets are handed to the registered port callbacks directly (dispatcher is property C07)',
-         'SyncLogger iteration is driven by the harness: next() is only called when its (real) queue is non-empty or the logger '
-         'is disconnected, because a real blocking Queue.get would hang the single task',
+         'SyncLogger iteration is driven by the harness: next() is only called when a sample is waiting or the session is over; '
+         'its queue is the real queue.Queue, subclassed only so that a get() that would block for ever raises instead of hanging',
          'logging disabled']
 ASSUMPTIONS = ['firmware wire layouts and type ids/sizes are those in vf/env/c05_env.py (written from the CRTP log protocol; firmware '
                'sources are not in the sandbox); the firmware derives the record count of a create/append message by integer '
@@ -57,6 +59,15 @@ EXPLANATION = 'C05: acceptance with symbolic period and forked type/kind/members
               'lists where the solver picks among the enabled events.'
 
 NAMES = [f'g.v{k}' for k in range(32)]
+
+# LogConfig.__init__ computes int(period_in_ms / 10) in floating point.  With the IEEE model the solver does not decide
+# int -> double -> divide -> truncate within the per-path budget, so the harnesses with a symbolic period run with the
+# real-number float model (exact division, truncation).  That model agrees with IEEE doubles on the whole input domain of
+# these harnesses; the agreement is checked here for every integer of the domain when the module is loaded.
+PERIOD_MAX_MS = 3000
+assert all(int(p / 10) == p // 10 for p in range(PERIOD_MAX_MS + 1)), 'real-number model of period_in_ms / 10 is not adequate'
+PERIOD_NOTE = 'period_in_ms is a symbolic int 0..3000; period_in_ms / 10 is modelled in real arithmetic (float_model=real); ' \
+              'agreement of trunc(real quotient) with CPython int(p / 10) is checked for all 3001 values at import'
 
 
 def size_of(type_id):
@@ -163,9 +174,16 @@ def ref_value(type_id, bs):
     return struct.unpack(ffmt, bytes(bs))[0]
 
 
-def same_value(got, exp, is_float):
-    """Equality, bit-exact for floats up to the NaN payload (every NaN equals every NaN)."""
+def same_value(sym, got, exp, is_float):
+    """Equality; for floats bit-exact up to the NaN payload (every NaN equals every NaN).  Symbolic shortcut for floats: when
+    the decoded value and the reference value are the SAME solver term (same float conversion of the same payload bytes) they
+    are equal for every payload, NaN patterns included, and no floating-point constraint has to enter the path condition."""
     if is_float:
+        if sym.symbolic:
+            with NoTracing():
+                gv, ev = getattr(got, 'var', None), getattr(exp, 'var', None)
+                if gv is not None and ev is not None and gv.eq(ev):
+                    return True
         if exp != exp:
             return got != got
     return got == exp
@@ -210,7 +228,7 @@ def h_decode(sym):
     for k in range(nv):
         name, tid, size, signed, ffmt = types[k]
         exp = ref_value(tid, payload[off:off + size])
-        assert same_value(data[NAMES[k]], exp, ffmt is not None), ('value of variable', k, name)
+        assert same_value(sym, data[NAMES[k]], exp, ffmt is not None), ('value of variable', k, name)
         off += size
         if ffmt == '<f':
             sym.goal('float')
@@ -274,7 +292,7 @@ def check_accept(sym, cf, lc, present, size, period_ms, want_vars):
 def h_accept_size(sym):
     """K table variables of every fetch type (forked) + nf one-byte fillers (forked), all present; symbolic period."""
     K = sym.B['k']
-    period_ms = sym.int('period_ms', 0, 3000)
+    period_ms = sym.int('period_ms', 0, PERIOD_MAX_MS)
     nf = sym.B['fmin'] + sym.choice('nf', sym.B['fmax'] - sym.B['fmin'] + 1)
     tsel = [sym.choice(f't{k}', 8) for k in range(K)]
     sym.apply_known()
@@ -298,17 +316,18 @@ ACC_STORED = [2, 3, 1]       # uint16_t, uint32_t, uint8_t (types in the device 
 
 def h_accept_kinds(sym):
     """3 variables, each typed / default-typed (type from the table) / raw memory (forked), table membership forked, fillers
-    so that the payload lands on 24..28 bytes; symbolic period."""
+    so that the payload lands on 24..29 bytes; symbolic period."""
     K = 3
-    period_ms = sym.int('period_ms', 0, 3000)
+    period_ms = sym.int('period_ms', 0, PERIOD_MAX_MS)
     kinds = [sym.choice(f'kind{k}', 3) for k in range(K)]
     member = [(True if sym.bool(f'member{k}') else False) if kinds[k] != KIND_MEM else True for k in range(K)]
     addr = sym.int('addr', 0, 2 ** 32 - 1)
+    fill = sym.B['fill'] + sym.choice('extra', 2)
     sym.apply_known()
     cf = new_cf(10, accept_toc(ACC_STORED))
     lc = LogConfig('blk', period_ms)
     want = []
-    size = sym.B['fill']
+    size = fill
     for k in range(K):
         name = NAMES[k] if member[k] else f'g.missing{k}'
         if kinds[k] == KIND_TYPED:
@@ -325,24 +344,345 @@ def h_accept_kinds(sym):
             sym.goal('raw-memory')
         want.append((name, tid))
         size += size_of(tid)
-    for k in range(sym.B['fill']):
+    for k in range(fill):
         lc.add_variable(f'g.f{k}', 'uint8_t')
         want.append((f'g.f{k}', 1))
     check_accept(sym, cf, lc, all(member), size, period_ms, want)
 
 
+# ---------------------------------------------------------------------------------------------------------------- lifecycle
+CREATE_STATUS = [E.OK, E.EEXIST, E.ENOMEM, E.E2BIG]       # what the firmware answers to create/append
+OTHER_STATUS = [E.OK, E.ENOENT]                           # ... to start / stop / delete
+LC_TYPED = [('g.v0', 2), ('g.v1', 7)]                     # uint16_t, float: explicit fetch type
+LC_DEFAULT = [('g.v2', 4), ('g.v3', 8)]                   # added without type: int8_t, FP16 in the device table
+
+
+class Recorder:
+    """added_cb / started_cb listener of any arity (cflib itself calls these with one, two or other first arguments)."""
+    def __init__(self):
+        self.calls = []
+
+    def __call__(self, *args):
+        self.calls.append(args)
+
+    def transitions(self, lc):
+        """The (LogConfig, flag) notifications; everything else must be an error notification ending in False."""
+        out = []
+        for a in self.calls:
+            if len(a) == 2 and a[0] is lc:
+                out.append(a[1])
+            else:
+                assert a[-1] is False, ('notification that is neither (config, flag) nor an error report', len(a))
+        return out
+
+
+def expect_create(msgs, v2, cf, want):
+    """The firmware's reading of the create message(s): every configured variable once, found by table ident."""
+    bid, recs = fw_block_messages(msgs, v2)
+    by_ident = {el.ident: (f'{el.group}.{el.name}') for el in cf.toc_entries}
+    seen = [(by_ident[ident], t & 0x0F) for (_, t, ident) in recs]
+    assert sorted(seen) == sorted(want), ('create does not enumerate the configured variables once each', seen)
+    return bid, seen
+
+
+def h_lifecycle(sym):
+    """Event list over {add/re-add, start, stop, delete, ack(status) of the oldest outstanding request, disconnect,
+    reconnect}; the solver picks among the ENABLED events. Flags and callbacks follow the acks; re-add keeps the variables."""
+    N = sym.B['n']
+    ncs = sym.B['create_statuses']
+    period_ms = sym.int('period_ms', 10, 2549)
+    with_defaults = sym.B['defaults']
+    sym.apply_known()
+    toc = [toc_element(30 + k, 'g', f'v{k}', t) for k, (_, t) in enumerate(LC_TYPED + LC_DEFAULT)]
+    cf = new_cf(10, toc)
+    lc = LogConfig('blk', period_ms)
+    want = list(LC_TYPED)
+    for name, t in LC_TYPED:
+        lc.add_variable(name, FW_BY_ID[t][0])
+    if with_defaults:
+        for name, t in LC_DEFAULT:
+            lc.add_variable(name)
+        want += LC_DEFAULT
+    added_rec, started_rec = Recorder(), Recorder()
+    lc.added_cb.add_callback(added_rec)
+    lc.started_cb.add_callback(started_rec)
+    cf.log.add_config(lc)
+    assert lc.valid and cf.drain() == []
+    snapshot = [(v.name, v.fetch_as) for v in lc.variables]
+    assert sorted(snapshot) == sorted(want), 'variables after the first add'
+    period = period_ms // 10
+    connected, in_log = True, True
+    m_added = m_started = False
+    flag_session = session = 0          # session in which the added flag was last set by an ack
+    out = []                            # requests the device has received and not yet answered (oldest first)
+    exp_added, exp_started = [], []
+    for step in range(N):
+        events = []
+        if connected and in_log:
+            events += ['start', 'stop', 'delete', 'disconnect']
+            if out:
+                events += [('ack', st) for st in (CREATE_STATUS[:ncs] if out[0] == 'create' else OTHER_STATUS)]
+        elif connected:
+            events += ['add']
+        else:
+            events += ['reconnect']
+        ev = events[sym.choice(f'ev{step}', len(events))]
+        if ev == 'add':
+            cf.log.add_config(lc)
+            assert lc.valid and cf.drain() == []
+            assert [(v.name, v.fetch_as) for v in lc.variables] == snapshot, 're-add changed the variable list'
+            in_log = True
+            sym.goal('re-added')
+        elif ev == 'start':
+            lc.start()
+            msgs = cf.drain()
+            # the added flag only follows acks, so after a reconnect it may still be set from the previous session
+            # (the statement asks nothing about that case): then either request is tolerated
+            stale = m_added and flag_session != session
+            is_start = bool(msgs) and msgs[0][2][0] == E.START
+            if m_added and (is_start or not stale):
+                assert msgs == [(5, 1, [E.START, lc.id, period])], ('start request for an added block', msgs)
+                out.append('start')
+            else:
+                bid, _ = expect_create(msgs, True, cf, want)
+                assert bid == lc.id and len(msgs) == 1
+                out.append('create')
+        elif ev == 'stop':
+            lc.stop()
+            assert cf.drain() == [(5, 1, [E.STOP, lc.id])], 'stop request'
+            out.append('stop')
+        elif ev == 'delete':
+            lc.delete()
+            assert cf.drain() == [(5, 1, [E.DELETE, lc.id])], 'delete request'
+            out.append('delete')
+        elif ev == 'disconnect':
+            disconnect(cf)
+            connected, out = False, []
+        elif ev == 'reconnect':
+            connect(cf, toc)
+            connected, in_log = True, False
+            session += 1
+            assert cf.log.log_blocks == []
+        else:
+            status = ev[1]
+            req = out.pop(0)
+            cmd = {'create': E.CREATE_V2, 'start': E.START, 'stop': E.STOP, 'delete': E.DELETE}[req]
+            cf.deliver(packet(E.CHAN_SETTINGS, [cmd, lc.id, status]))
+            sent = cf.drain()
+            if req == 'create' and status in (E.OK, E.EEXIST) and not m_added:
+                assert sent == [(5, 1, [E.START, lc.id, period])], ('start must follow the create ack', sent)
+                out.append('start')
+                m_added, flag_session = True, session
+                exp_added.append(True)
+                sym.goal('create-acked')
+            else:
+                assert sent == [], ('unexpected request after an ack', sent)
+                if req == 'create' and status not in (E.OK, E.EEXIST):
+                    assert lc.err_no == status
+                    sym.goal('create-refused')
+                if status == E.OK and req == 'start':
+                    if not m_started:
+                        exp_started.append(True)
+                        sym.goal('started')
+                    m_started = True
+                elif status == E.OK and req == 'stop':
+                    if m_started:
+                        exp_started.append(False)
+                        sym.goal('stopped')
+                    m_started = False
+                elif req == 'delete':        # 0, or ENOENT: the block is not there (any more)
+                    if m_started:
+                        exp_started.append(False)
+                    if m_added:
+                        exp_added.append(False)
+                        sym.goal('deleted')
+                    m_started = m_added = False
+        assert lc.added == m_added, ('added flag does not follow the acks', step)
+        assert lc.started == m_started, ('started flag does not follow the acks', step)
+        assert added_rec.transitions(lc) == exp_added, 'added_cb notifications'
+        assert started_rec.transitions(lc) == exp_started, 'started_cb notifications'
+
+
+# ---------------------------------------------------------------------------------------------------------------- re-add, end to end
+RT_VARS = [('g.v0', 5), ('g.v1', 3), ('g.v2', 8), ('g.v3', 1)]      # int16_t, uint32_t, FP16, uint8_t in the device table
+
+
+def h_readd_roundtrip(sym):
+    """Scripted history: add [start, acks] - disconnect - reconnect (table idents may differ) - re-add - start - acks - one
+    data packet.  Each variable is typed explicitly or left to the table type (forked).  The device encodes the sample in the
+    order and with the types of the records IT parsed from the create message; the application must receive, per variable
+    name, exactly that value."""
+    K = sym.B['k']
+    typed = [True if sym.bool(f'typed{k}') else False for k in range(K)]
+    started_before = True if sym.bool('started_before') else False
+    missing_first = sym.choice('missing_first', K + 1)       # K: nothing missing; k: variable k absent from the first table
+    id1 = [sym.int(f'ident_a{k}', 0, 65535) for k in range(K)]
+    id2 = [sym.int(f'ident_b{k}', 0, 65535) for k in range(K)]
+    assume_distinct(sym, id1)
+    assume_distinct(sym, id2)
+    ts = sym.bytes('ts', 3)
+    sym.apply_known()
+    toc1 = [toc_element(id1[k], 'g', f'v{k}', RT_VARS[k][1]) for k in range(K) if k != missing_first]
+    toc2 = [toc_element(id2[k], 'g', f'v{k}', RT_VARS[k][1]) for k in range(K)]
+    cf = new_cf(10, toc1)
+    lc = LogConfig('blk', 500)
+    want = []
+    for k in range(K):
+        name, t = RT_VARS[k]
+        if typed[k]:
+            lc.add_variable(name, FW_BY_ID[t][0])
+        else:
+            lc.add_variable(name)
+            sym.goal('default-typed')
+        want.append((name, t))
+    got = []
+    lc.data_received_cb.add_callback(lambda t, d, c: got.append((t, d, c)))
+
+    def bring_up():
+        lc.start()
+        bid, seen = expect_create(cf.drain(), True, cf, want)
+        cf.deliver(packet(E.CHAN_SETTINGS, [E.CREATE_V2, bid, E.OK]))
+        assert cf.drain() == [(5, 1, [E.START, bid, 50])]
+        cf.deliver(packet(E.CHAN_SETTINGS, [E.START, bid, E.OK]))
+        assert lc.added and lc.started
+        return bid, seen
+
+    try:
+        cf.log.add_config(lc)
+        accepted = True
+    except KeyError:
+        accepted = False
+    assert accepted == (missing_first == K), 'acceptance in the first session'
+    if accepted:
+        if started_before:
+            bring_up()
+            lc.delete()
+            assert len(cf.drain()) == 1
+            cf.deliver(packet(E.CHAN_SETTINGS, [E.DELETE, lc.id, E.OK]))
+            assert not lc.added and not lc.started
+    else:
+        sym.goal('first-add-refused')
+    disconnect(cf)
+    connect(cf, toc2)
+    cf.log.add_config(lc)
+    assert lc.valid, 're-add refused'
+    assert sorted((v.name, v.fetch_as) for v in lc.variables) == sorted(want), 're-add changed the variable list'
+    bid, seen = bring_up()
+    # the device samples its variables in the order of its records
+    payload = sym.bytes('p', sum(size_of(t) for _, t in seen))
+    cf.deliver(packet(E.CHAN_LOGDATA, [bid] + ts + payload))
+    assert len(got) == 1 and got[0][2] is lc and got[0][0] == le(ts)
+    assert len(got[0][1]) == K
+    off = 0
+    for name, t in seen:
+        exp = ref_value(t, payload[off:off + size_of(t)])
+        assert same_value(sym, got[0][1][name], exp, FW_BY_ID[t][4] is not None), ('value delivered for', name)
+        off += size_of(t)
+    sym.goal('round-trip')
+
+
+# ---------------------------------------------------------------------------------------------------------------- SyncLogger
+SL_VARS = [('g.v0', 2), ('g.v1', 4)]       # uint16_t, int8_t
+
+
+def h_synclogger(sym):
+    """SyncLogger on one block; events {sample arrives, next(), link lost, leave the with-block}, solver picks among the
+    enabled ones (next() is enabled when it cannot block: a sample is waiting, or the logger is no longer connected)."""
+    N = sym.B['n']
+    raw = [(sym.bytes(f'ts{j}_', 3), sym.bytes(f'p{j}_', 3)) for j in range(N)]
+    sym.apply_known()
+    cf = new_cf(10, [toc_element(40 + k, 'g', f'v{k}', t) for k, (_, t) in enumerate(SL_VARS)])
+    lc = LogConfig('blk', 100)
+    for name, t in SL_VARS:
+        lc.add_variable(name, FW_BY_ID[t][0])
+    sl = SyncLogger(cf, lc)
+    sl.connect()
+    bid, _ = expect_create(cf.drain(), True, cf, SL_VARS)
+    cf.deliver(packet(E.CHAN_SETTINGS, [E.CREATE_V2, bid, E.OK]))
+    assert cf.drain() == [(5, 1, [E.START, bid, 10])]
+    cf.deliver(packet(E.CHAN_SETTINGS, [E.START, bid, E.OK]))
+    assert lc.started and sl.is_connected()
+    link_up, open_, ended = True, True, False
+    pending = []            # samples delivered to the host and not yet yielded
+    nsent = 0
+    for step in range(N):
+        events = []
+        if link_up:
+            events += ['sample', 'lost']
+        if open_:
+            events += ['close']
+        if pending or not open_:
+            events += ['next']
+        ev = events[sym.choice(f'ev{step}', len(events))]
+        if ev == 'sample':
+            ts, p = raw[nsent]
+            nsent += 1
+            cf.deliver(packet(E.CHAN_LOGDATA, [bid] + ts + p))
+            if open_:
+                pending.append((le(ts), {'g.v0': ref_int(p[0:2], False), 'g.v1': ref_int(p[2:3], True)}))
+        elif ev == 'lost':
+            disconnect(cf)
+            link_up, open_ = False, False
+            assert not sl.is_connected(), 'SyncLogger still connected after the link was lost'
+            sym.goal('link-lost')
+        elif ev == 'close':
+            sl.__exit__(None, None, None)
+            sent = cf.drain()
+            if link_up:
+                assert sent == [(5, 1, [E.STOP, bid]), (5, 1, [E.DELETE, bid])], ('stop and delete on leaving', sent)
+            else:
+                assert sent == []
+            open_ = False
+            assert not sl.is_connected()
+            sym.goal('closed')
+        else:
+            try:
+                item = next(sl)          # E.WouldBlock (blocking get on an empty queue) propagates: violation
+            except StopIteration:
+                item = None
+            if open_:
+                assert item is not None, 'iteration ended while connected'
+            if item is None:
+                assert not open_
+                ended = True
+                sym.goal('ended')
+            else:
+                # in order, once; after the end of the session the remaining samples may or may not be handed out
+                assert not ended, 'sample yielded after the iteration had ended'
+                assert pending, 'sample yielded that was never delivered (or yielded twice)'
+                ets, edata = pending.pop(0)
+                assert item[0] == ets and item[2] is lc, 'timestamp / block of the yielded sample'
+                assert item[1] == edata, 'values of the yielded sample'
+                sym.goal('yielded')
+                if nsent >= 2:
+                    sym.goal('yielded-after-two')
+
+
 HARNESSES = [
     Harness('accept_size', h_accept_size, quick=dict(k=2, fmin=18, fmax=25), thorough=dict(k=2, fmin=0, fmax=27), timeout=(300, 1500),
-            goals=('accepted', 'accepted-26-bytes', 'rejected-size', 'rejected-27-bytes', 'rejected-period'), smt_timeout=1.5),
+            goals=('accepted', 'accepted-26-bytes', 'rejected-size', 'rejected-27-bytes', 'rejected-period'), float_model='real',
+            note=PERIOD_NOTE),
     Harness('accept_kinds', h_accept_kinds, quick=dict(fill=19), thorough=dict(fill=19), timeout=(300, 1500),
             goals=('accepted', 'accepted-26-bytes', 'rejected-missing', 'rejected-size', 'rejected-27-bytes', 'rejected-period',
-                   'default-typed', 'raw-memory'), smt_timeout=1.5),
+                   'default-typed', 'raw-memory'), float_model='real', note=PERIOD_NOTE),
     Harness('create_v2', h_create, quick=dict(v2=True, nmax=12), thorough=dict(v2=True, nmax=26), timeout=(200, 900),
             goals=('created', 'split')),
     Harness('create_v1', h_create, quick=dict(v2=False, nmax=12), thorough=dict(v2=False, nmax=14), timeout=(200, 900),
             goals=('created',)),
     Harness('create_mem', h_create_mem, quick=dict(n=7), thorough=dict(n=9), timeout=(300, 1200),
             goals=('memory-variable', 'split')),
-    Harness('decode', h_decode, quick=dict(k=3), thorough=dict(k=4), timeout=(300, 1500), smt_timeout=1.5,
+    Harness('decode', h_decode, quick=dict(k=3), thorough=dict(k=3), timeout=(300, 900), smt_timeout=1.5,
             goals=('decoded', 'other-block', 'float', 'fp16', 'signed')),
+    Harness('lifecycle', h_lifecycle, quick=dict(n=5, create_statuses=3, defaults=True),
+            thorough=dict(n=6, create_statuses=4, defaults=True), timeout=(300, 1700), float_model='real', symbolic=False,
+            goals=('create-acked', 'create-refused', 'started', 'stopped', 'deleted', 're-added'),
+            note='event choices are solver-picked indexes into the enabled-event list (forks); only the period is a symbolic value. '
+                 + PERIOD_NOTE),
+    Harness('readd_roundtrip', h_readd_roundtrip, quick=dict(k=3), thorough=dict(k=4), timeout=(300, 1500),
+            goals=('round-trip', 'default-typed', 'first-add-refused')),
+    Harness('synclogger', h_synclogger, quick=dict(n=5), thorough=dict(n=7), timeout=(300, 1500),
+            goals=('yielded', 'yielded-after-two', 'ended', 'link-lost', 'closed')),
 ]
+# thorough only: every mix of exactly 4 fetch types, sharded by the type of the first variable
+HARNESSES += [Harness(f'decode4[{FW_TYPES[i][0]}]', h_decode, quick=dict(k=4, exact=True, first=i), tiers=('thorough',),
+                      timeout=(1500, 1500), smt_timeout=1.5, goals=('decoded', 'other-block')) for i in range(8)]
